@@ -33,6 +33,15 @@ def find_function(src, name):
                 depth -= 1
                 if depth == 0: return src[m.start():j + 1]
             j += 1
+    # a C++ class / struct definition `class NAME { ... }` (gmp-impl.h: gmp_allocated_string)
+    for m in re.finditer(r"(?m)^[ \t]*(?:class|struct)[ \t]+%s\b[^;{]*\{" % re.escape(name), src):
+        depth = 0; j = m.end() - 1
+        while j < len(src):
+            if src[j] == "{": depth += 1
+            elif src[j] == "}":
+                depth -= 1
+                if depth == 0: return src[m.start():j + 1]
+            j += 1
     return None
 
 def fingerprint(root, path, name):
